@@ -17,7 +17,9 @@
 package api
 
 import (
+	"context"
 	"encoding/json"
+	"errors"
 	"fmt"
 	"sort"
 	"strconv"
@@ -27,6 +29,7 @@ import (
 	"testing"
 	"time"
 
+	"github.com/mattn/go-sqlite3"
 	"google.golang.org/grpc/codes"
 
 	"github.com/ory/keto/ketoapi"
@@ -34,6 +37,7 @@ import (
 	"github.com/ory/keto/verif/apih"
 	"github.com/ory/keto/verif/ev"
 	"github.com/ory/keto/verif/refsem"
+	"github.com/ory/keto/verif/sqlfault"
 )
 
 type c07Case struct {
@@ -671,10 +675,87 @@ func c07Cases() []c07Case {
 			}
 		}
 	}
+	// faults: every statement issued while fetching page #Ops[0] fails with the given kind of error
+	for _, kind := range []string{"generic", "sqlite-locked", "sqlite-busy", "context-canceled"} {
+		for _, ps := range []int{1, 2} {
+			m := 2*ps + 1
+			for page := 0; page <= m/ps; page++ {
+				for _, tr := range trs {
+					out = append(out, c07Case{Family: "faults", Transport: tr, S: ps, M: m, Shape: 1, Ops: []int{page}, TokenKind: kind})
+				}
+			}
+		}
+	}
 	return out
 }
 
+// runFault: storage refuses every statement of ONE page fetch (persistently for that fetch, so a retry
+// inside the server fails as well). The fetch must report an error or return exactly the page it returns
+// without the fault - never a shorter page or an empty "last" page; repeating the fetch with the same
+// token afterwards, the iteration still yields every row exactly once.
+func (r *c07Run) runFault(s *apih.Server, cs c07Case) {
+	q := c07Query(cs.Shape, cs.SubSet)
+	var match []*ketoapi.RelationTuple
+	for i := 0; i < cs.M; i++ {
+		match = append(match, c07Row(cs.Shape, cs.SubSet, i, "o"))
+	}
+	c07Populate(s, match)
+	want := refsem.MultisetOf(match)
+	var injected error
+	switch cs.TokenKind {
+	case "generic":
+		injected = errors.New("injected storage failure")
+	case "sqlite-locked":
+		injected = sqlite3.Error{Code: sqlite3.ErrLocked}
+	case "sqlite-busy":
+		injected = sqlite3.Error{Code: sqlite3.ErrBusy}
+	default:
+		injected = context.Canceled
+	}
+	c := s.Client()
+	var got []*ketoapi.RelationTuple
+	token := ""
+	for page := 0; page < cs.M+3; page++ {
+		if page == cs.Ops[0] {
+			ff, ec0, _ := c07Fetch(c, cs.Transport, q, cs.S, token) // fault-free answer for this token
+			hit := 0
+			s.Tap.SetBefore(func(*sqlfault.Event) error { hit++; return injected })
+			fp, ec, desc := c07Fetch(c, cs.Transport, q, cs.S, token)
+			s.Tap.SetBefore(nil)
+			s.Settle()
+			r.requests.Add(2)
+			if hit > 0 {
+				r.trace(cs.String())
+			}
+			if ec0 == "" && ec == "" && hit > 0 && (strings.Join(c07Keys(fp.Items), "|") != strings.Join(c07Keys(ff.Items), "|") || (fp.Token == "") != (ff.Token == "")) {
+				r.cand(c07Cand{Sig: "storage-failure-reported-as-page:" + cs.TokenKind + ":" + cs.Transport, What: fmt.Sprintf("page %d was fetched while every SQL statement failed (%s): the answer is a success with %d items and token %q, without the fault it has %d items and token %q", page+1, cs.TokenKind, len(fp.Items), fp.Token, len(ff.Items), ff.Token), Case: cs})
+				return
+			}
+			_ = desc
+		}
+		p, ec, desc := c07Fetch(c, cs.Transport, q, cs.S, token)
+		r.requests.Add(1)
+		if ec != "" {
+			r.cand(c07Cand{Sig: "list-error:" + cs.Transport, What: fmt.Sprintf("page %d failed without fault: %s", page+1, desc), Case: cs})
+			return
+		}
+		got = append(got, p.Items...)
+		if p.Token == "" {
+			break
+		}
+		token = p.Token
+	}
+	if d := refsem.DiffMultiset(refsem.MultisetOf(got), want, false); d != "" {
+		r.cand(c07Cand{Sig: "rows-missing-after-failed-fetch:" + cs.Transport, What: "after a failed page fetch was repeated, the iteration does not return every row exactly once: " + d, Case: cs})
+	}
+}
+
 func (r *c07Run) runCase(s *apih.Server, cs c07Case) {
+	switch cs.Family {
+	case "faults":
+		r.runFault(s, cs)
+		return
+	}
 	switch cs.Family {
 	case "static", "large":
 		r.runStatic(s, cs)
@@ -686,7 +767,7 @@ func (r *c07Run) runCase(s *apih.Server, cs c07Case) {
 }
 
 func c07Size(c c07Case) int {
-	fam := map[string]int{"tokens": 0, "static": 1, "dynamic": 2, "large": 3}[c.Family]
+	fam := map[string]int{"tokens": 0, "static": 1, "dynamic": 2, "large": 3, "faults": 1}[c.Family]
 	nops := 0
 	for _, o := range c.Ops {
 		if o != 0 {
